@@ -103,6 +103,7 @@ func (it *Iterator) Next() {
 retry:
 	it.valid = true
 	next, deleted := it.curr.getNext(0)
+	verifPoint(VpIterNextRead, unsafe.Pointer(it.curr))
 	if deleted {
 		// Current node is deleted. Unlink current node from the level
 		// and make next node as current node.
